@@ -39,6 +39,9 @@ type Def struct {
 	Members  []EnumMember
 	Fields   []Field
 	Branches []Branch
+	// Imported: the definition lives in the imported file dep/dep.bop (Go
+	// package "dep" in separate import mode)
+	Imported bool
 }
 
 type Branch struct {
@@ -60,6 +63,9 @@ type Pkg struct {
 	Context string
 	Deep    bool // depth-2 constructor: tighter string bound
 	LongStr bool // strings take a length out of {0, 8, 9, 17} instead of 0..MaxStr
+	// ImportMode: "" (single file), "separate" or "combined": the leaf's
+	// definitions sit in an imported file, generated in that import mode
+	ImportMode string
 }
 
 // ---------- .bop text ----------
@@ -116,8 +122,42 @@ func (d *Def) bop(sb *strings.Builder, ind string) {
 func (s *Schema) Bop() string {
 	var sb strings.Builder
 	for _, d := range s.Defs {
+		if d.Imported {
+			continue
+		}
 		d.bop(&sb, "")
 		sb.WriteString("\n")
+	}
+	return sb.String()
+}
+
+// HasImports reports whether some definitions live in the imported file.
+func (s *Schema) HasImports() bool {
+	for _, d := range s.Defs {
+		if d.Imported {
+			return true
+		}
+	}
+	return false
+}
+
+// MainBop is the text of the importing file (go_package is the Go import
+// path of the package generated from it).
+func (s *Schema) MainBop(goPackage string) string {
+	return fmt.Sprintf("import \"dep/dep.bop\"\n\nconst string go_package = %q;\n\n", goPackage) + s.Bop()
+}
+
+// DepBop is the text of the imported file.
+func (s *Schema) DepBop(goPackage string) string {
+	var sb strings.Builder
+	if goPackage != "" {
+		fmt.Fprintf(&sb, "const string go_package = %q;\n\n", goPackage)
+	}
+	for _, d := range s.Defs {
+		if d.Imported {
+			d.bop(&sb, "")
+			sb.WriteString("\n")
+		}
 	}
 	return sb.String()
 }
@@ -291,7 +331,7 @@ var MapKeyTypes = []string{"bool", "byte", "uint16", "int16", "int32", "uint64",
 // of shape-name substrings.
 func Shapes(tier string) []*Pkg { return ShapesProfile(tier, "full") }
 
-var liteLeaves = map[string]bool{"bool": true, "int32": true, "string": true, "guid": true, "date": true, "EUint16": true, "Fixed": true, "StrS": true, "Empty": true, "EmptyM": true, "Msg": true, "Uni": true, "RecM": true}
+var liteLeaves = map[string]bool{"bool": true, "byte": true, "int32": true, "string": true, "guid": true, "date": true, "EUint16": true, "Fixed": true, "StrS": true, "Empty": true, "EmptyM": true, "Msg": true, "Uni": true, "RecM": true}
 
 // ShapesProfile enumerates the corpus; profile "lite" (used in the quick tier
 // by the checks whose cost grows with the encoding length: cut points, fault
@@ -400,6 +440,35 @@ func ShapesProfile(tier, profile string) []*Pkg {
 		p.Shape = "17 guid fields (272 bytes of fixed-size fields in a row) in a " + cx
 		out = append(out, p)
 	}
+	// the leaf's definitions live in an imported file: separate mode (own Go
+	// package, namespaced type names in the importing code) and combined mode
+	for _, lf := range leaves {
+		if !(lf.name == "Fixed" || lf.name == "Msg" || lf.name == "Uni" || lf.name == "EUint16" || lf.name == "StrS") {
+			continue
+		}
+		for ci, ct := range Ctors[:3] {
+			if profile == "lite" && tier == "quick" && (ci == 2 || lf.name == "StrS") {
+				continue
+			}
+			for _, cx := range []string{"struct", "message"} {
+				for _, mode := range []string{"separate", "combined"} {
+					if mode == "combined" && !(ci == 1 && cx == "struct") && tier == "quick" {
+						continue
+					}
+					var defs []*Def
+					for _, d := range lf.defs {
+						cp := *d
+						cp.Imported = true
+						defs = append(defs, &cp)
+					}
+					defs = append(defs, buildRec(ct.build(lf.typ), cx, true)...)
+					p := &Pkg{Schema: &Schema{Defs: defs}, Leaf: lf.name, Ctor: ct.name, Context: cx, ImportMode: mode}
+					p.Shape = fmt.Sprintf("%s in %s of %s imported from another file (%s mode)", ct.name, cx, lf.name, mode)
+					out = append(out, p)
+				}
+			}
+		}
+	}
 	// the record itself has no fields (a message still occupies length + terminator)
 	for _, cx := range []string{"struct", "message"} {
 		d := &Def{Kind: cx, Name: "Rec"}
@@ -439,13 +508,17 @@ var primGo = map[string]string{"bool": "bool", "byte": "byte", "uint8": "uint8",
 var primWidth = map[string]int{"bool": 1, "byte": 1, "uint8": 1, "uint16": 2, "int16": 2, "uint32": 4, "int32": 4, "uint64": 8, "int64": 8, "float32": 4, "float64": 8, "guid": 16, "date": 8}
 
 type gen struct {
-	longStr bool
-	cross   bool // emit cross-version equality (calls xEq_ instead of vEq_)
-	sb      strings.Builder
-	s       *Schema
-	o       Opts
-	tmp     int
-	tier    Tier
+	longStr   bool
+	cross     bool            // emit cross-version equality (calls xEq_ instead of vEq_)
+	depPrefix string          // "dep." when imported definitions are generated into their own Go package
+	imported  map[string]bool // names of imported definitions (including union branches)
+	depr      bool            // deprecated message fields take part in equality and reference encoding
+	sfx       string          // name suffix of the equality/reference functions being emitted
+	sb        strings.Builder
+	s         *Schema
+	o         Opts
+	tmp       int
+	tier      Tier
 }
 
 func (g *gen) p(format string, a ...interface{}) { fmt.Fprintf(&g.sb, format, a...) }
@@ -455,7 +528,14 @@ func (g *gen) fresh(prefix string) string {
 	return fmt.Sprintf("%s%d", prefix, g.tmp)
 }
 
-func (g *gen) typeName(n string) string { return expose(n, g.o.Private) }
+func (g *gen) typeName(n string) string {
+	if g.depPrefix != "" {
+		if d := g.s.Find(n); d != nil && g.imported[d.Name] {
+			return g.depPrefix + expose(n, g.o.Private)
+		}
+	}
+	return expose(n, g.o.Private)
+}
 
 func (g *gen) goType(t *Type) string {
 	switch t.Kind {
@@ -577,7 +657,7 @@ func (g *gen) eq(t *Type, a, b, ind string) {
 		if g.cross {
 			g.p("%sok = vstub.And(ok, xEq_%s(%s, %s))\n", ind, t.Name, a, b)
 		} else {
-			g.p("%sok = vstub.And(ok, vEq_%s(%s, %s))\n", ind, t.Name, a, b)
+			g.p("%sok = vstub.And(ok, vEq%s_%s(%s, %s))\n", ind, g.sfx, t.Name, a, b)
 		}
 	case "array":
 		i := g.fresh("i")
@@ -634,7 +714,7 @@ func (g *gen) ref(t *Type, v, ind string) {
 			g.p("%sout = vstub.PutU64(out, uint64(%s))\n", ind, v)
 		}
 	case "rec":
-		g.p("%sout = vRef_%s(out, %s)\n", ind, t.Name, v)
+		g.p("%sout = vRef%s_%s(out, %s)\n", ind, g.sfx, t.Name, v)
 	case "array":
 		e := g.fresh("e")
 		g.p("%sout = vstub.PutU32(out, uint32(len(%s)))\n", ind, v)
@@ -651,23 +731,29 @@ func (g *gen) ref(t *Type, v, ind string) {
 	}
 }
 
+// defGlue emits the value constructor (once) and, for the current name suffix,
+// equality and reference encoder. With suffix "D" (g.depr) deprecated message
+// fields take part: the encoding an older writer would produce and equality
+// on everything that was on the wire.
 func (g *gen) defGlue(d *Def) {
 	tn := g.typeName(d.Name)
 	switch d.Kind {
 	case "enum":
 		return
 	case "struct":
-		g.p("func vNondet_%s(d int) (v %s) {\n", d.Name, tn)
-		for _, f := range d.Fields {
-			g.nondet(f.Type, "v."+g.fieldName(d, f), "\t")
+		if !g.depr {
+			g.p("func vNondet_%s(d int) (v %s) {\n", d.Name, tn)
+			for _, f := range d.Fields {
+				g.nondet(f.Type, "v."+g.fieldName(d, f), "\t")
+			}
+			g.p("\treturn v\n}\n\n")
 		}
-		g.p("\treturn v\n}\n\n")
-		g.p("func vEq_%s(a, b %s) bool {\n\tok := true\n", d.Name, tn)
+		g.p("func vEq%s_%s(a, b %s) bool {\n\tok := true\n", g.sfx, d.Name, tn)
 		for _, f := range d.Fields {
 			g.eq(f.Type, "a."+g.fieldName(d, f), "b."+g.fieldName(d, f), "\t")
 		}
 		g.p("\treturn ok\n}\n\n")
-		g.p("func vRef_%s(out []byte, v %s) []byte {\n", d.Name, tn)
+		g.p("func vRef%s_%s(out []byte, v %s) []byte {\n", g.sfx, d.Name, tn)
 		for _, f := range d.Fields {
 			g.ref(f.Type, "v."+g.fieldName(d, f), "\t")
 		}
@@ -675,18 +761,20 @@ func (g *gen) defGlue(d *Def) {
 	case "message":
 		fs := append([]Field{}, d.Fields...)
 		sort.Slice(fs, func(i, j int) bool { return fs[i].Index < fs[j].Index })
-		g.p("func vNondet_%s(d int) (v %s) {\n", d.Name, tn)
-		g.p("\tif d > vMaxDepth {\n\t\treturn v\n\t}\n")
-		for _, f := range fs {
-			fn := g.fieldName(d, f)
-			g.p("\tif vstub.Choose(0, 1) == 1 {\n\t\tv.%s = new(%s)\n", fn, g.goType(f.Type))
-			g.nondet(f.Type, "(*v."+fn+")", "\t\t")
-			g.p("\t}\n")
+		if !g.depr {
+			g.p("func vNondet_%s(d int) (v %s) {\n", d.Name, tn)
+			g.p("\tif d > vMaxDepth {\n\t\treturn v\n\t}\n")
+			for _, f := range fs {
+				fn := g.fieldName(d, f)
+				g.p("\tif vstub.Choose(0, 1) == 1 {\n\t\tv.%s = new(%s)\n", fn, g.goType(f.Type))
+				g.nondet(f.Type, "(*v."+fn+")", "\t\t")
+				g.p("\t}\n")
+			}
+			g.p("\treturn v\n}\n\n")
 		}
-		g.p("\treturn v\n}\n\n")
-		g.p("func vEq_%s(a, b %s) bool {\n\tok := true\n", d.Name, tn)
+		g.p("func vEq%s_%s(a, b %s) bool {\n\tok := true\n", g.sfx, d.Name, tn)
 		for _, f := range fs {
-			if f.Deprecated {
+			if f.Deprecated && !g.depr {
 				continue
 			}
 			fn := g.fieldName(d, f)
@@ -695,9 +783,9 @@ func (g *gen) defGlue(d *Def) {
 			g.p("\t}\n")
 		}
 		g.p("\treturn ok\n}\n\n")
-		g.p("func vRef_%s(out []byte, v %s) []byte {\n\tstart := len(out)\n\tout = append(out, 0, 0, 0, 0)\n", d.Name, tn)
+		g.p("func vRef%s_%s(out []byte, v %s) []byte {\n\tstart := len(out)\n\tout = append(out, 0, 0, 0, 0)\n", g.sfx, d.Name, tn)
 		for _, f := range fs {
-			if f.Deprecated {
+			if f.Deprecated && !g.depr {
 				continue
 			}
 			fn := g.fieldName(d, f)
@@ -707,23 +795,25 @@ func (g *gen) defGlue(d *Def) {
 		}
 		g.p("\tout = append(out, 0)\n\tvstub.SetU32(out[start:], uint32(len(out)-start-4))\n\treturn out\n}\n\n")
 	case "union":
-		g.p("func vNondet_%s(d int) (v %s) {\n", d.Name, tn)
-		g.p("\tswitch vstub.Choose(1, %d) {\n", len(d.Branches))
-		for i, b := range d.Branches {
-			bn := g.typeName(b.Def.Name)
-			g.p("\tcase %d:\n\t\tv.%s = new(%s)\n\t\t*v.%s = vNondet_%s(d + 1)\n", i+1, bn, bn, bn, b.Def.Name)
+		if !g.depr {
+			g.p("func vNondet_%s(d int) (v %s) {\n", d.Name, tn)
+			g.p("\tswitch vstub.Choose(1, %d) {\n", len(d.Branches))
+			for i, b := range d.Branches {
+				bn := expose(b.Def.Name, g.o.Private) // field name; the type may be namespaced
+				g.p("\tcase %d:\n\t\tv.%s = new(%s)\n\t\t*v.%s = vNondet_%s(d + 1)\n", i+1, bn, g.typeName(b.Def.Name), bn, b.Def.Name)
+			}
+			g.p("\t}\n\treturn v\n}\n\n")
 		}
-		g.p("\t}\n\treturn v\n}\n\n")
-		g.p("func vEq_%s(a, b %s) bool {\n\tok := true\n", d.Name, tn)
+		g.p("func vEq%s_%s(a, b %s) bool {\n\tok := true\n", g.sfx, d.Name, tn)
 		for _, b := range d.Branches {
-			bn := g.typeName(b.Def.Name)
-			g.p("\tif (a.%s == nil) != (b.%s == nil) {\n\t\tok = false\n\t} else if a.%s != nil {\n\t\tok = vstub.And(ok, vEq_%s(*a.%s, *b.%s))\n\t}\n", bn, bn, bn, b.Def.Name, bn, bn)
+			bn := expose(b.Def.Name, g.o.Private)
+			g.p("\tif (a.%s == nil) != (b.%s == nil) {\n\t\tok = false\n\t} else if a.%s != nil {\n\t\tok = vstub.And(ok, vEq%s_%s(*a.%s, *b.%s))\n\t}\n", bn, bn, bn, g.sfx, b.Def.Name, bn, bn)
 		}
 		g.p("\treturn ok\n}\n\n")
-		g.p("func vRef_%s(out []byte, v %s) []byte {\n\tstart := len(out)\n\tout = append(out, 0, 0, 0, 0)\n", d.Name, tn)
+		g.p("func vRef%s_%s(out []byte, v %s) []byte {\n\tstart := len(out)\n\tout = append(out, 0, 0, 0, 0)\n", g.sfx, d.Name, tn)
 		for _, b := range d.Branches {
-			bn := g.typeName(b.Def.Name)
-			g.p("\tif v.%s != nil {\n\t\tout = append(out, %d)\n\t\tout = vRef_%s(out, *v.%s)\n\t\tvstub.SetU32(out[start:], uint32(len(out)-start-5))\n\t\treturn out\n\t}\n", bn, b.Index, b.Def.Name, bn)
+			bn := expose(b.Def.Name, g.o.Private)
+			g.p("\tif v.%s != nil {\n\t\tout = append(out, %d)\n\t\tout = vRef%s_%s(out, *v.%s)\n\t\tvstub.SetU32(out[start:], uint32(len(out)-start-5))\n\t\treturn out\n\t}\n", bn, b.Index, g.sfx, b.Def.Name, bn)
 		}
 		g.p("\treturn out\n}\n\n")
 	}
@@ -734,13 +824,39 @@ func Glue(p *Pkg, o Opts, tier Tier, harness string) string {
 	if p.Deep {
 		tier.MaxStr = 1
 	}
-	g := &gen{s: p.Schema, o: o, tier: tier, longStr: p.LongStr}
+	g := &gen{s: p.Schema, o: o, tier: tier, longStr: p.LongStr, imported: map[string]bool{}}
+	depImport := ""
+	if p.ImportMode == "separate" {
+		g.depPrefix = "dep."
+		depImport = fmt.Sprintf("\tdep \"corp/%s/dep\"\n", p.Name)
+		for _, d := range p.Schema.Defs {
+			if d.Imported {
+				g.imported[d.Name] = true
+				for _, b := range d.Branches {
+					g.imported[b.Def.Name] = true
+				}
+			}
+		}
+	}
 	g.p("// Code generated by the verification corpus generator; DO NOT EDIT.\n// shape: %s\n\npackage %s\n\n", p.Shape, p.Name)
-	g.p("import (\n\t\"math\"\n\t\"time\"\n\n\t\"vh/vstub\"\n)\n\nvar _ = math.Float32bits\nvar _ time.Time\n\n")
+	g.p("import (\n\t\"math\"\n\t\"time\"\n\n%s\t\"vh/vstub\"\n)\n\nvar _ = math.Float32bits\nvar _ time.Time\n\n", depImport)
 	g.p("var (\n\tvMaxArr   = %d\n\tvMaxStr   = %d\n\tvMaxMap   = %d\n\tvMaxDepth = %d\n)\n\nconst vThorough = %v\n\n// vShape tags assertion ids whose known failures depend on the shape of the record.\nconst vShape = %q\n\n", tier.MaxArr, tier.MaxStr, tier.MaxMap, tier.MaxDepth, tier.Name == "thorough", shapeTag(p.Schema))
 	for _, d := range p.Schema.AllDefs() {
 		g.defGlue(d)
 	}
+	// the same with deprecated message fields taking part (decode direction of C03)
+	hasDepr := false
+	for _, d := range p.Schema.AllDefs() {
+		for _, f := range d.Fields {
+			hasDepr = hasDepr || (f.Deprecated && d.Kind == "message")
+		}
+	}
+	g.p("const vHasDepr = %v\n\n", hasDepr)
+	g.depr, g.sfx = true, "D"
+	for _, d := range p.Schema.AllDefs() {
+		g.defGlue(d)
+	}
+	g.depr, g.sfx = false, ""
 	src := g.sb.String()
 	h := strings.ReplaceAll(harness, "REC", g.typeName("Rec"))
 	if o.NoMust {
